@@ -144,7 +144,15 @@ func c01config(c *Check, rng *rand.Rand, name string, opt EnvOpt, ncases int) {
 			time.Sleep(time.Second)
 			env.Barrier()
 		}
-		// three more requests on the same connection: what the big flush left in the
+		// first verdict: what the client holds now, before anything else happens on the
+		// connection (a later request would flush replies that were being withheld)
+		s0 := cl.Snapshot()
+		first := checkPipeline(p, s0)
+		for _, is := range first {
+			c.Violate(Violation{Class: is.Class, Shape: "deep-pipeline-behind-slow-head", Detail: is.Detail[:minInt(len(is.Detail), 200)],
+				Witness: map[string]interface{}{"config": name, "requests": n, "replies": len(s0.Replies), "shape": "first request gated, all later ones answered at once"}})
+		}
+		// then three more requests on the same connection: what the big flush left in the
 		// queue shows up in front of their replies
 		var more []*PReq
 		g2 := &pipeGen{env: env, script: script, rng: rng, gated: false, maxMultiKeys: 3, wSingle: 2, wPing: 1}
@@ -153,9 +161,11 @@ func c01config(c *Check, rng *rand.Rand, name string, opt EnvOpt, ncases int) {
 		cl.WaitReplies(n+3, 5*time.Second)
 		p = append(p, more...)
 		s := cl.Snapshot()
-		for _, is := range checkPipeline(p, s) {
-			c.Violate(Violation{Class: is.Class, Shape: "deep-pipeline-behind-slow-head", Detail: is.Detail[:minInt(len(is.Detail), 200)],
-				Witness: map[string]interface{}{"config": name, "requests": n, "replies": len(s.Replies), "shape": "first request gated, all later ones answered at once, then three more requests"}})
+		if len(first) == 0 {
+			for _, is := range checkPipeline(p, s) {
+				c.Violate(Violation{Class: is.Class, Shape: "deep-pipeline-behind-slow-head", Detail: is.Detail[:minInt(len(is.Detail), 200)],
+					Witness: map[string]interface{}{"config": name, "requests": n, "replies": len(s.Replies), "shape": "first request gated, all later ones answered at once, then three more requests"}})
+			}
 		}
 		c.Eval(1)
 		c.Distinct(fmt.Sprintf("%s|deep|%d", name, n))
